@@ -801,14 +801,17 @@ class TimedStore(typing.Generic[KT]):
         callback(entry, address)
 
     def stop_all_for_address(self, address: _T_SOCKADDR) -> None:
-        for entry, (callback, handle) in self.store[address].items():
+        entries = list(self.store[address].items())
+        self.store[address].clear()
+        for entry, (callback, handle) in entries:
             if handle:
                 handle.cancel()
-            asyncio.get_event_loop().call_soon(callback, entry, address)
-        self.store[address].clear()
+            # notify immediately, like stop(): a deferred notification could be
+            # overtaken by the notification for a newer entry with the same key
+            callback(entry, address)
 
     def stop_all(self) -> None:
-        for addr in self.store.keys():
+        for addr in list(self.store.keys()):
             self.stop_all_for_address(addr)
         self.store.clear()
 
@@ -834,7 +837,7 @@ class TimedStore(typing.Generic[KT]):
             )
             return
 
-        asyncio.get_event_loop().call_soon(callback, entry, address)
+        callback(entry, address)
 
     def entries(self) -> typing.Iterator[KT]:
         return itertools.chain.from_iterable(x.keys() for x in self.store.values())
